@@ -1179,3 +1179,53 @@ def mix_probe(payload):
         except Exception as ex:
             res.append([name, f'EXC {type(ex).__name__}: {ex}'[:120]])
     return res
+
+
+def method_probe(payload):
+    """each operator carries the server opcode of that operator — method and builtin-function entry
+    points: for every operator of the server tables, every attribute of a unit generator (and every
+    function of sc3.base.builtins) whose name is the operator's name (also snake_case / lower case) is
+    called; the operator unit it emits must carry that operator's index."""
+    _init(payload.get('mode', 'nrt'))
+    import re
+    from sc3.synth.synthdef import SynthDef
+    from sc3.synth.ugens.noise import WhiteNoise, Dust
+    from sc3.synth.ugens.inout import Out
+    from sc3.base import builtins as bi
+    res = []
+
+    def cands(name):
+        snake = re.sub(r'(?<!^)(?=[A-Z])', '_', name).lower()
+        return list(dict.fromkeys([name, snake, name.lower(), name + '_']))
+    for arity, names in (('unary', opcodes_ref.UNARY), ('binary', opcodes_ref.BINARY)):
+        for idx, name in enumerate(names):
+            if not name[0].isalpha():
+                continue
+            for cand in cands(name):
+                for entry in ('method', 'builtin'):
+                    st = {}
+
+                    def f():
+                        x, y = WhiteNoise.ar(), Dust.ar(5)
+                        if entry == 'method':
+                            fn = getattr(x, cand, None)
+                            if not callable(fn):
+                                st['na'] = True; raise LookupError
+                            r = fn() if arity == 'unary' else fn(y)
+                        else:
+                            fn = getattr(bi, cand, None)
+                            if not callable(fn):
+                                st['na'] = True; raise LookupError
+                            r = fn(x) if arity == 'unary' else fn(x, y)
+                        Out.ar(0, r)
+                    try:
+                        sd = SynthDef('mp', f)
+                        d = scgf.parse(bytes(sd.as_bytes()))[0]
+                    except Exception as ex:
+                        if not st.get('na'):
+                            res.append([arity, name, cand, entry, 'EXC', type(ex).__name__, idx])
+                        continue
+                    cls = 'UnaryOpUGen' if arity == 'unary' else 'BinaryOpUGen'
+                    ops = [(u['cls'], u['sp']) for u in d['ugens'] if u['cls'] in ('UnaryOpUGen', 'BinaryOpUGen', 'MulAdd', 'Sum3', 'Sum4')]
+                    res.append([arity, name, cand, entry, 'OK', ops, idx])
+    return res
